@@ -1,4 +1,5 @@
 import RxModel.Lemmas.Roll
+import RxModel.Lemmas.RollFlush
 /-!
 # C05 — roll produces exactly the count-based sliding windows, in order
 
@@ -41,8 +42,39 @@ theorem C05_slots_suffice (w s : Nat) (hs : 0 < s) (j1 j2 n : Nat)
     (hm : j1 % density w s = j2 % density w s) : j1 = j2 :=
   recv_unique w s (density w s) j1 j2 n (density_mul w s hs) h1 h2 hm
 
+/-- **Partial windows at completion, in opening order.**  When the key completes after `xs`, the
+windows still open are `c ≤ j < ⌈|xs|/s⌉` (`c` = number of full windows); they are closed in
+increasing `j` — the order in which they were opened — and window `j` holds `xs.drop (j*s)`,
+the items it has received so far and nothing else. -/
+theorem C05_partial_windows {α} (w s : Nat) (hs : 0 < s) (hw : 0 < w) (xs : List α) :
+    ∃ c, (∀ j, j < c ↔ j * s + w ≤ xs.length) ∧ c ≤ (xs.length + s - 1) / s ∧
+      ((rollRingLS w s).windows xs).2 =
+        (List.range' c ((xs.length + s - 1) / s - c)).map (fun j => xs.drop (j * s)) := by
+  obtain ⟨c, h⟩ := runObs_inv w s hs hw xs [] (0, fun _ => none) Obs.empty 0
+    (by simpa [Obs.empty] using inv_init (α := α) w s (density w s) hw)
+  simp only [List.nil_append] at h
+  have hf := ring_flush w s (density w s) hs hw (density_pos w s hs hw) (density_mul w s hs) xs _ _ c h
+  obtain ⟨f1, _, f3⟩ := hf
+  refine ⟨c, h.cnt, f1, ?_⟩
+  have hn := h.hn
+  have hgoal : (obsRun ⟨((rollRingLS (α := α) w s).runObs ((0, fun _ => none), Obs.empty) xs).2.opn, []⟩
+      (lsFlush (density w s) ((((rollRingLS (α := α) w s).runObs ((0, fun _ => none), Obs.empty) xs).1.1 + s - 1) / s % density w s)
+        ((rollRingLS (α := α) w s).runObs ((0, fun _ => none), Obs.empty) xs).1.2)).closed =
+      (List.range' c ((xs.length + s - 1) / s - c)).map (fun j => xs.drop (j * s)) := by
+    rw [hn]; exact f3
+  exact hgoal
+
+/-- **window = stride** (`_roll_count`, the tumbling implementation): the windows are the
+consecutive chunks of `w` items; the last, shorter chunk is closed when the key completes -/
+theorem C05_tumbling {α} (w : Nat) (hw : 0 < w) (xs : List α) :
+    (rollCountLS w).windows xs =
+      ((List.range (xs.length / w)).map (window w w xs),
+       if xs.length % w = 0 then [] else [xs.drop (xs.length / w * w)]) :=
+  tumbling_windows w hw xs
+
 /-! non-vacuity / sanity -/
 example : ((rollRingLS 3 1).windows [0, 1, 2, 3]) = ([[0, 1, 2], [1, 2, 3]], [[2, 3], [3]]) := by decide
 example : ((rollRingLS 3 2).windows [1, 2, 3, 4, 5]) = ([[1, 2, 3], [3, 4, 5]], [[5]]) := by decide
+example : ((rollCountLS 2).windows [1, 2, 3, 4, 5]) = ([[1, 2], [3, 4]], [[5]]) := by decide
 
 end Rx
